@@ -73,7 +73,6 @@ type arith_op =
 
 type checked_res =
 | RVal of coq_Z * bool
-| RPanic
 
 (** val overflowing : coq_Z -> checked_res **)
 
@@ -95,9 +94,7 @@ let perform_checked op a b =
   | OpMod ->
     if Z.eqb b Z0
     then RVal ((Zpos Coq_xH), true)
-    else if (&&) (Z.eqb a i64_min) (Z.eqb b (Zneg Coq_xH))
-         then RPanic
-         else RVal ((Z.rem a b), false)
+    else RVal ((Z.rem a b), false)
 
 (** val exact_op : arith_op -> coq_Z -> coq_Z -> coq_Z option **)
 
@@ -112,7 +109,6 @@ let exact_op op a b =
 type vec_res =
 | VOk of coq_Z list
 | VOverflow
-| VPanic
 
 (** val checked_loop :
     arith_op -> (coq_Z * coq_Z) list -> bool list option -> coq_Z list ->
@@ -129,28 +125,21 @@ let rec checked_loop op pairs present acc any =
         | [] ->
           let p0 = false in
           let present' = Some [] in
-          (match perform_checked op a b with
-           | RVal (v, o) ->
-             checked_loop op rest present' (v :: acc) ((||) any ((&&) o p0))
-           | RPanic -> VPanic)
+          let RVal (v, o) = perform_checked op a b in
+          checked_loop op rest present' (v :: acc) ((||) any ((&&) o p0))
         | p0 :: ps ->
           let present' = Some ps in
-          (match perform_checked op a b with
-           | RVal (v, o) ->
-             checked_loop op rest present' (v :: acc) ((||) any ((&&) o p0))
-           | RPanic -> VPanic))
+          let RVal (v, o) = perform_checked op a b in
+          checked_loop op rest present' (v :: acc) ((||) any ((&&) o p0)))
      | None ->
        let p0 = true in
        let present' = None in
-       (match perform_checked op a b with
-        | RVal (v, o) ->
-          checked_loop op rest present' (v :: acc) ((||) any ((&&) o p0))
-        | RPanic -> VPanic))
+       let RVal (v, o) = perform_checked op a b in
+       checked_loop op rest present' (v :: acc) ((||) any ((&&) o p0)))
 
 type cell_res =
 | COk of coq_Z option
 | COverflow
-| CPanic
 
 type aexpr =
 | ACol of nat
@@ -164,9 +153,8 @@ let cell_op op a b =
   | Some x ->
     (match b with
      | Some y ->
-       (match perform_checked op x y with
-        | RVal (v, overflow) -> if overflow then COverflow else COk (Some v)
-        | RPanic -> CPanic)
+       let RVal (v, overflow) = perform_checked op x y in
+       if overflow then COverflow else COk (Some v)
      | None -> COk None)
   | None -> COk None
 
@@ -177,10 +165,11 @@ let rec eval_aexpr row = function
 | AConst z -> COk (Some z)
 | ABin (op, l, r) ->
   (match eval_aexpr row l with
-   | COk a -> (match eval_aexpr row r with
-               | COk b -> cell_op op a b
-               | x -> x)
-   | x -> x)
+   | COk a ->
+     (match eval_aexpr row r with
+      | COk b -> cell_op op a b
+      | COverflow -> COverflow)
+   | COverflow -> COverflow)
 
 (** val sum_loop : coq_Z -> bool -> coq_Z list -> coq_Z * bool **)
 
